@@ -423,6 +423,18 @@ func (e *Engine) dynConFor(t types.Type) dynCon {
 	if _, isPtr := t.(*types.Pointer); isPtr {
 		c.Name += "_p"
 	}
+	for i, base := 2, c.Name; ; i++ {
+		clash := false
+		for _, o := range e.dynCons {
+			if o.Name == c.Name {
+				clash = true
+			}
+		}
+		if !clash {
+			break
+		}
+		c.Name = fmt.Sprintf("%s%d", base, i)
+	}
 	e.dynSet[ts] = len(e.dynCons)
 	e.dynCons = append(e.dynCons, c)
 	return c
